@@ -522,6 +522,36 @@ pub fn exhaustive(n: usize, sizes: &[usize], widths: &[usize], mut f: impl FnMut
     }
 }
 
+/// fixed corpus: inputs of past findings (regression) and hand-made corner shapes
+pub fn corpus() -> Vec<Dag> {
+    use Item::*;
+    vec![
+        // finding "panic:cycle-or-something" (isolate_subgraph_hb did not redirect the wide links to a
+        // duplicated space root; fixed in /repo e7f5dfb): minimal input
+        Dag { nodes: vec![vec![Link(2, 1), Link(4, 2), Link(4, 3)], vec![Link(2, 2)], vec![Link(2, 4), Link(2, 5)], vec![Link(2, 5)], vec![Run(112, 65530)], vec![]] },
+        // same, the root of the wide space is linked 16-bit AND 32-bit by the same parent
+        Dag { nodes: vec![vec![Link(2, 2), Link(4, 2), Link(4, 3), Link(2, 1)], vec![Link(2, 2)], vec![Link(2, 4), Link(2, 5)], vec![Link(2, 5)], vec![Run(112, 65530)], vec![]] },
+        Dag { nodes: vec![vec![Lit(vec![1]), Link(4, 2), Link(2, 2), Link(4, 3)], vec![Lit(vec![2])], vec![Lit(vec![3]), Link(2, 4), Link(2, 5)], vec![Lit(vec![4]), Link(2, 5)], vec![Run(112, 65530)], vec![Lit(vec![9])]] },
+        // other shrunk inputs of the same finding
+        Dag { nodes: vec![vec![Link(2, 1), Link(4, 4), Run(64, 65530)], vec![Link(2, 2), Link(4, 3)], vec![Link(2, 3)], vec![Link(2, 5)], vec![Link(4, 5)], vec![]] },
+        Dag { nodes: vec![vec![Link(2, 1), Link(2, 3), Link(4, 4)], vec![Link(2, 2)], vec![Link(4, 3)], vec![Link(2, 5), Link(2, 6)], vec![Link(2, 6)], vec![Run(113, 65530)], vec![]] },
+        Dag { nodes: vec![vec![Link(2, 1), Link(2, 2), Link(4, 3), Link(4, 4)], vec![], vec![Link(2, 5), Link(2, 3)], vec![Link(2, 6), Link(2, 7)], vec![Link(2, 7)], vec![Run(112, 32747)], vec![Run(113, 32767)], vec![]] },
+        // after the first fix: a parent with a 16-bit AND a wide link to the same space root
+        Dag { nodes: vec![vec![Link(2, 1), Link(4, 1), Link(2, 2), Run(64, 65525)], vec![Link(3, 2)], vec![]] },
+        Dag { nodes: vec![vec![Link(2, 1), Link(2, 3)], vec![Link(2, 2), Link(4, 2)], vec![Link(2, 4)], vec![Run(67, 65531), Link(3, 4)], vec![]] },
+        // after the second fix: a space root that is also a descendant of another duplicated space root
+        Dag { nodes: vec![vec![Link(2, 1), Link(4, 2), Link(4, 3)], vec![Link(2, 2)], vec![Link(2, 4), Link(2, 5), Link(4, 3)], vec![Link(2, 5)], vec![Run(112, 65526)], vec![]] },
+        // "index out of bounds" in find_root_of_space
+        Dag { nodes: vec![vec![Lit(vec![1]), Link(4, 1), Link(4, 2), Link(2, 3), Link(4, 3), Link(4, 4), Link(3, 5), Link(4, 10), Run(64, 65535)], vec![], vec![Lit(vec![3]), Link(2, 3), Link(3, 4), Link(4, 6), Link(3, 7), Run(66, 1)], vec![Lit(vec![4]), Link(2, 7), Run(67, 65533)], vec![Lit(vec![5]), Run(68, 2)], vec![Lit(vec![6]), Run(69, 2), Link(4, 10)], vec![Lit(vec![7]), Link(2, 8), Link(2, 11), Link(3, 12), Run(70, 99)], vec![Lit(vec![8]), Link(4, 9), Lit(vec![238, 7]), Run(71, 32766)], vec![], vec![Lit(vec![10]), Run(73, 2)], vec![Lit(vec![11]), Run(74, 2)], vec![Lit(vec![12]), Run(75, 99)], vec![Lit(vec![13]), Run(76, 99)]] },
+        // single object, empty object, object of exactly 65535/65536 bytes behind a 16-bit link
+        Dag { nodes: vec![vec![]] },
+        Dag { nodes: vec![vec![Lit(vec![1, 2, 3])]] },
+        Dag { nodes: vec![vec![Link(2, 1), Run(7, 65533)], vec![Lit(vec![5])]] },
+        Dag { nodes: vec![vec![Link(2, 1), Run(7, 65534)], vec![Lit(vec![5])]] },
+        Dag { nodes: vec![vec![Link(3, 1), Run(7, 65534)], vec![Lit(vec![5])]] },
+    ]
+}
+
 pub struct Ctx {
     pub st: Stats,
     pub cw: CaseWriter,
@@ -551,7 +581,13 @@ pub fn run_case(cx: &mut Ctx, dag: &Dag, kind: &str, to_coq: bool) -> Outcome {
         cx.st.count("oracle.skipped_misuse_width");
     } else if let Some(why) = oracle(dag, &out) {
         // one stable key per failure class (known_findings.json matches on it); the input is in "dag"
-        let key = if why.contains("cycle or something") { "panic:cycle-or-something".to_string() } else { dag.key() };
+        let key = if why.contains("cycle or something") {
+            "panic:cycle-or-something".to_string()
+        } else if why.contains("panic") && why.contains("index out of bounds") {
+            "panic:index-out-of-bounds".to_string()
+        } else {
+            dag.key()
+        };
         cx.st.count(&format!("oracle_failure.{key}"));
         cx.st.oracle_failure(json!({"key": key, "kind": kind, "dag": dag.canon(), "why": why}));
     } else if let Outcome::Bytes(b) = &out {
@@ -649,24 +685,27 @@ fn minimize() {
             best.push((cost, d.canon(), why));
         }
     };
-    exhaustive(3, &[1, 30000, 65536], &[2, 4], &mut visit);
-    exhaustive(4, &[1, 40000, 65536], &[2, 4], &mut visit);
-    // random failing inputs, greedily shrunk
+    let _ = &mut visit;
+    // random failing inputs, greedily shrunk (a few per failure class)
     let mut rng = Rng::new(seed_from_env());
-    let mut shrunk = 0;
-    for _ in 0..4000 {
+    let mut per_class: std::collections::HashMap<String, usize> = Default::default();
+    for _ in 0..6000 {
         let d = if rng.chance(1, 2) { gen_wide(&mut rng) } else {
-            let n = 3 + rng.below(4) as usize;
-            gen_random(&mut rng, n, 2, 3, true)
+            let n = 3 + rng.below(9) as usize;
+            let (bb, mix) = (1 + rng.below(3) as usize, 2 + rng.below(2) as u32);
+            gen_random(&mut rng, n, bb, mix, true)
         };
-        if d.expansion() > 500 { continue; }
-        if oracle(&d, &compile(&d)).is_some() {
+        if d.expansion() > 500 || d.expansion_bytes() > 3_000_000 { continue; }
+        total += 1;
+        if let Some(why) = oracle(&d, &compile(&d)) {
+            let class = why.chars().take(60).collect::<String>();
+            let c = per_class.entry(class).or_insert(0);
+            if *c >= 2 { continue; }
+            *c += 1;
             let m = shrink(&d);
             let why = oracle(&m, &compile(&m)).unwrap();
             let cost = m.n_links() * 1_000_000 + (0..m.nodes.len()).map(|i| m.node_size(i)).sum::<usize>();
             best.push((cost, m.canon(), why));
-            shrunk += 1;
-            if shrunk > 40 { break; }
         }
     }
     best.sort();
@@ -697,6 +736,10 @@ fn main() {
     let mut cx = Ctx { st: Stats::new(), cw, seen: HashSet::new() };
     let scale = if thorough { 8 } else { 1 };
 
+    // 0. fixed corpus (regressions of past findings)
+    for d in corpus() {
+        run_case(&mut cx, &d, "corpus", true);
+    }
     // 1. small random DAGs, small sizes (cheap; dedup-heavy when unlabelled)
     for _ in 0..500 * scale {
         let n = 1 + rng.below(7) as usize;
